@@ -16,6 +16,7 @@ the inserted tags can be recognised unambiguously even when the query text itsel
   * the input tree is not modified (snapshot before / after).
 """
 import copy
+import gc
 import re
 
 import lib
@@ -71,11 +72,12 @@ def expected_classes(T, node, path, inh, ok, ko, okc, koc):
     return out
 
 
-def segment(out_s, okc, koc):
-    """cut the sentinel run into ('text', s) / ('open', cls) / ('close',) ; None if a tag is not understood"""
+def segment(out_s, okc, koc, elem=SENT):
+    """cut an output into ('text', s) / ('open', cls) / ('close',) ; None if a tag is not understood.
+    Unambiguous when the element name does not occur in the query text (the sentinel never does)."""
     alts = sorted({okc, koc}, key=len, reverse=True)
-    pat = re.compile("<%s class=\"(%s)\">|</%s>" % (re.escape(SENT), "|".join(re.escape(a) for a in alts),
-                                                   re.escape(SENT)), re.S)
+    pat = re.compile("<%s class=\"(%s)\">|</%s>" % (re.escape(elem), "|".join(re.escape(a) for a in alts),
+                                                   re.escape(elem)), re.S)
     segs, pos = [], 0
     for m in pat.finditer(out_s):
         if m.start() > pos:
@@ -84,7 +86,7 @@ def segment(out_s, okc, koc):
         pos = m.end()
     if pos < len(out_s):
         segs.append(("text", out_s[pos:]))
-    if SENT in "".join(s[1] for s in segs if s[0] == "text"):
+    if elem == SENT and SENT in "".join(s[1] for s in segs if s[0] == "text"):
         return None
     return segs
 
@@ -106,13 +108,11 @@ def read_output(segs):
     return "".join(text), nested and not stack, classes
 
 
-def oracle(T, naming, tree, ok, ko, pars, okc, koc, elem, out):
-    """returns (reason or None, per-character classes observed or None)"""
+def judge(T, tree, ok, ko, okc, koc, elem, out):
+    """the clauses of the property on ONE output `out` whose tags are named `elem` (which must not occur in the
+    text of `tree`), against the tree as it is now; returns (reason or None, per-character classes or None)"""
     s0 = tree.__str__(head_tail=True)
-    out_s = naming.HTMLMarker(okc, koc, SENT)(tree, ok, ko, pars)
-    if out_s.replace(SENT, elem) != out:
-        return "output depends on the element name otherwise than by the tag names", None
-    segs = segment(out_s, okc, koc)
+    segs = segment(out, okc, koc, elem)
     if segs is None:
         return "an inserted tag carries an unexpected class", None
     text, nested, classes = read_output(segs)
@@ -125,11 +125,159 @@ def oracle(T, naming, tree, ok, ko, pars, okc, koc, elem, out):
     # part of it (the model, which gives paths_ok precedence like the code, is still compared case by case)
     if not (set(ok) & set(ko)) and classes != exp:
         return "a character is not rendered with the class of the innermost marked node containing it", classes
+    return None, classes
+
+
+def oracle(T, naming, tree, ok, ko, pars, okc, koc, elem, out):
+    """returns (reason or None, per-character classes observed or None)"""
+    out_s = naming.HTMLMarker(okc, koc, SENT)(tree, ok, ko, pars)
+    if out_s.replace(SENT, elem) != out:
+        return "output depends on the element name otherwise than by the tag names", None
+    why, classes = judge(T, tree, ok, ko, okc, koc, SENT, out_s)
+    if why:
+        return why, classes
     other = naming.HTMLMarker(okc, koc, SENT)(tree, ok, ko, not pars)
     segs2 = segment(other, okc, koc)
     if segs2 is None or read_output(segs2)[2] != classes:
         return "parsimonious and exhaustive modes render a character with different classes", classes
     return None, classes
+
+
+# ---------------------------------------------------------------------------------------------------------
+# Histories: ONE marker instance used for many trees.  Instance state and object identity (id(tree), address
+# reuse after garbage collection) are outside the value model of the Coq side, so they are covered here:
+#  (A) request-handler loop: parse / build a fresh tree, mark it on the shared marker, judge, drop the tree;
+#      few shapes (same-sized trees), a small pool of path-set pairs and both modes, so that the arguments
+#      other than the tree repeat all the time and freed addresses are reused;
+#  (B) the same tree object marked, edited in place, marked again.
+# Every output of the shared marker is judged on the CURRENT tree and compared with a fresh marker's output.
+
+H_WORDS = ["foo", "bar", "baz", "spam", "eggs", "ham", "fizz", "buzz", "title", "body", "qux", "nil"]
+H_SHAPES = [
+    # (kind, template / builder name, number of words, [(paths_ok, paths_ko), ...])
+    ("parse", "%s AND %s", 2, [([(0,)], [(1,)]), ([()], [(1,)])]),
+    ("parse", "%s OR (%s AND NOT %s)", 3, [([(), (1, 0, 0)], [(1,), (1, 0, 1, 0)]), ([(1, 0)], [(0,)])]),
+    ("parse", "f:%s~2 %s^3", 2, [([(0, 0)], [(1,), (0,)]), ([(1,)], [])]),
+    ("parse", "%s", 1, [([()], []), ([], [()])]),
+    ("build", "and2", 2, [([(0,)], [(1,)]), ([(), (0,)], [(1,)])]),
+    ("build", "group_or3", 3, [([(0,)], [(0, 1)]), ([(0, 2)], [()])]),
+]
+H_CONFIGS = [("ok", "ko", SENT), ("good", "bad", SENT), ("ok", "ok", SENT), ("ok", "ko", "span")]
+
+
+def h_make(T, parser, kind, what, words):
+    """a FRESH tree for one step of a history (nothing else references it)"""
+    if kind == "parse":
+        return parser.parse(what % tuple(words))
+    if what == "and2":
+        return T.AndOperation(T.Word(words[0], tail=" "), T.Word(words[1], head=" "))
+    if what == "group_or3":
+        return T.Group(T.OrOperation(T.Word(words[0], tail=" "), T.Word(words[1], head=" ", tail=" "),
+                                     T.Word(words[2], head=" ")), tail=" ")
+    raise AssertionError(what)
+
+
+def h_edit(T, tree, edit):
+    """in-place edits of a tree between two markings (history B)"""
+    first = tree
+    while first.children:
+        first = first.children[0]
+    if edit == "value" and isinstance(first, T.Term):
+        first.value = first.value + "X"
+    elif edit == "head":
+        first.head = first.head + "  "
+    elif edit == "tail":
+        tree.tail = tree.tail + " "
+    elif edit == "append":
+        op = tree
+        while not isinstance(op, T.BaseOperation) and op.children:
+            op = op.children[0]
+        if isinstance(op, T.BaseOperation):
+            op.children = list(op.children) + [T.Word("appended", head=" ")]
+        else:
+            tree.head = "\t" + tree.head
+    else:
+        tree.head = " " + tree.head
+
+
+def h_step_check(T, naming, marker, cfg, tree, ok, ko, pars):
+    """mark `tree` on the shared marker, judge the result on the tree as it is now, compare with a fresh marker"""
+    okc, koc, elem = cfg
+    a_ok, a_ko = set(ok), set(ko)
+    out = marker(tree, a_ok, a_ko, pars)
+    why, _ = judge(T, tree, a_ok, a_ko, okc, koc, elem, out)
+    fresh = naming.HTMLMarker(okc, koc, elem)(tree, a_ok, a_ko, pars)
+    if why is None and fresh != out:
+        why = "a marker that was used before renders differently from a fresh marker"
+    return why, out, fresh
+
+
+def run_histories(T, naming, parser, r, res, n_loop, n_edit):
+    stats = {"loop_steps": 0, "edit_histories": 0, "edit_steps": 0, "configs": len(H_CONFIGS),
+             "distinct_argument_keys_per_marker": 0, "gc_collects": 0}
+    for cfg in H_CONFIGS:
+        okc, koc, elem = cfg
+        # ---- (A) parse / mark / drop loop on one marker
+        marker = naming.HTMLMarker(okc, koc, elem)
+        history, reported, keys = [], 0, set()
+        for i in range(n_loop):
+            kind, what, nw, pool = H_SHAPES[i % len(H_SHAPES)] if i % 3 else r.choice(H_SHAPES)
+            words = [r.choice(H_WORDS) + str(r.randrange(10, 100)) for _ in range(nw)]   # same sizes
+            ok, ko = r.choice(pool)
+            pars = r.random() < 0.5
+            step = {"kind": kind, "what": what, "words": words, "paths_ok": ok, "paths_ko": ko,
+                    "parcimonious": pars}
+            history.append(step)
+            keys.add((what, repr(ok), repr(ko), pars))
+            tree = h_make(T, parser, kind, what, words)
+            try:
+                why, out, fresh = h_step_check(T, naming, marker, cfg, tree, ok, ko, pars)
+            except Exception as e:
+                why, out, fresh = "exception %r" % e, None, None
+            if why and reported < 3:
+                reported += 1
+                res.failures.append(({"history_kind": "one marker, fresh tree per call, tree dropped after the call",
+                                      "ok_class": okc, "ko_class": koc, "element": elem,
+                                      "history": [dict(h) for h in history], "index": i,
+                                      "query_text": tree.__str__(head_tail=True), "why": why,
+                                      "output": out, "fresh_marker_output": fresh}, None))
+            elif why:
+                reported += 1
+            del tree
+            if i % 40 == 39:
+                gc.collect()
+                stats["gc_collects"] += 1
+        stats["loop_steps"] += n_loop
+        stats["distinct_argument_keys_per_marker"] = len(keys)
+        if reported > 3:
+            res.notes.append("history on marker %r: %d failing steps in all (3 reported)" % (cfg, reported))
+        # ---- (B) same object marked, edited in place, marked again (same marker as above: it has a past)
+        for j in range(n_edit):
+            kind, what, nw, pool = r.choice(H_SHAPES)
+            words = [r.choice(H_WORDS) + str(r.randrange(10, 100)) for _ in range(nw)]
+            ok, ko = r.choice(pool)
+            pars = r.random() < 0.5
+            edits = [r.choice(["value", "head", "tail", "append"]) for _ in range(r.randrange(1, 4))]
+            tree = h_make(T, parser, kind, what, words)
+            hist = {"kind": kind, "what": what, "words": words, "paths_ok": ok, "paths_ko": ko,
+                    "parcimonious": pars, "edits": edits}
+            stats["edit_histories"] += 1
+            for k in range(len(edits) + 1):
+                if k:
+                    h_edit(T, tree, edits[k - 1])
+                stats["edit_steps"] += 1
+                try:
+                    why, out, fresh = h_step_check(T, naming, marker, cfg, tree, ok, ko, pars)
+                except Exception as e:
+                    why, out, fresh = "exception %r" % e, None, None
+                if why:
+                    res.failures.append(({"history_kind": "same tree object marked, edited in place, marked again",
+                                          "ok_class": okc, "ko_class": koc, "element": elem, "history": hist,
+                                          "index": k, "query_text": tree.__str__(head_tail=True), "why": why,
+                                          "output": out, "fresh_marker_output": fresh}, None))
+                    break
+            del tree
+    return stats
 
 
 def g_oclasses(classes):
@@ -250,6 +398,8 @@ def correspond(model_ok, res):
         dist["paths_as_set"] += as_set
         if marked and gentree.count_nodes(tree) > 1:
             seen.add((desc, tuple(sorted(set(ok))), tuple(sorted(set(ko))), pars, okc, koc))
+    # histories on shared marker instances (instance state / object identity: outside the value model)
+    dist["histories"] = run_histories(T, naming, parser, r, res, 260 if quick else 2600, 40 if quick else 400)
     res.cases = len(cases)
     res.nontrivial = len(seen)
     res.rule = ("parsed queries (incl. phrases containing <span class=\"ok\"> / </span>) and random programmatic "
@@ -322,6 +472,12 @@ SPEC = {
     ],
     "assumptions": ["trees contain only luqum.tree classes; ok_class / ko_class / element are str",
                     "'original query text' is tree.__str__(head_tail=True); that it is the parsed string is C01",
+                    "the Coq model is a function of the VALUES (tree, paths, mode, classes, element): state kept on "
+                    "the marker instance and object identity (id(tree), address reuse after garbage collection, "
+                    "in-place edits between calls) are outside it; they are covered by harness histories only — one "
+                    "marker per configuration over >= 260 fresh trees that are dropped after each call, with "
+                    "repeating path sets and modes, and mark / edit in place / mark again sequences, every output "
+                    "judged on the current tree and compared with a fresh marker",
                     "text identity with the input tree needs every explicit Boost force to print like its "
                     "normalisation (true of parsed / constructed trees; false only after overwriting .force)"],
 }
